@@ -313,6 +313,14 @@ def run(ctx):
     # not become visible before it is complete (an empty marker is refused as an invalid version forever).
     first_open_is_resumable(ctx, "R-C02.10")
 
+    # ---- borrowed obligations (mechanisms owned by other properties that this property's verdict also rests on)
+    # what was journaled must decode again: a decoder that rejects what the encoder writes loses acknowledged writes (read as a torn tail)
+    ctx.borrow("C15", ["R-C15.3", "R-C15.6"], "R-C02.11")
+    # items of a batch keep their journal order on replay
+    ctx.borrow("C04", ["R-C04.8"], "R-C02.12")
+    # replay skips nothing that no table holds
+    ctx.borrow("C04", ["R-C04.5"], "R-C02.13", only_instances=["replay-guard-skips-exactly"])
+
 
 SETTERS = ("batch::WriteBatch::durability", "tx::write_tx::BaseTransaction::durability",
            "tx::single_writer::write_tx::WriteTransaction::<'tx>::durability", "tx::optimistic::write_tx::WriteTransaction::durability")
